@@ -58,7 +58,11 @@ def run(ctx):
                        "regexp constraints, RemoteInterface/Copyable constraints and Shared are outside the model",
                        "TLS/negotiation replaced by a loopback Broker pair (foolscap.test.common.Loopback)"]
     ok, log = ctx.coq_build(["props/C12.vo"])
-    before = len(ctx.failures)
+    known = common.load_known()
+
+    def unknown_failures():
+        return [f for f in ctx.failures if not ((ctx.pid, f["sig"]) in known and known[(ctx.pid, f["sig"])]["status"] == "known"
+                                                and f["has_input"])]
     from harness import schema_impl as S
     from harness import implenv as E
     with E.quiet():
@@ -72,7 +76,7 @@ def run(ctx):
         correspond(ctx, S, cases, diff)
     else:
         ctx.note("model does not build: correspondence skipped")
-    if not ok and len(ctx.failures) == before:
+    if not ok and not unknown_failures():
         ctx.fail("proof-broken", "theorem closure props/C12.vo no longer builds against the regenerated gen/SchemaGen.v: "
                  + tail(log), replay=dict(log=tail(log, 6000)), has_input=False)
 
